@@ -126,5 +126,7 @@ NotifPool(lazy) == {[code |-> c, sub |-> s, data |-> Zeros(n)] : c \in {0, 1, 2,
               \* data that looks like the start of a message (all ones), for the codes next to it
               \cup {[code |-> c, sub |-> s, data |-> [i \in 1..n |-> 255]] : c \in {6, 255}, s \in {2, 255}, n \in {1, 13, 14, 15, 16, 17, 19, 40}}
               \cup {[code |-> 255, sub |-> 255, data |-> [i \in 1..14 |-> 255] \o <<0, 24, 3, 6, 2, 98, 121, 101>>]}
+              \* the longest Data fields a 4096-octet message can carry (19 + 2 + 4075)
+              \cup {[code |-> c, sub |-> 2, data |-> [i \in 1..n |-> i % 251]] : c \in {2, 6}, n \in {4073, 4074, 4075}}
 RRPool(lazy) == {[typ |-> t, afi |-> a, res |-> r, safi |-> s] : t \in {5, 128}, a \in {0, 1, 2, 25, 16388, 65535}, r \in {0, 1, 255}, s \in {0, 1, 2, 4, 70, 71, 73, 128, 133, 255}}
 =============================================================================
